@@ -1,6 +1,7 @@
 (* C08 — Snapshot transactions see one consistent, stable snapshot under concurrency. *)
 From Coq Require Import List NArith Bool.
 From FsDb Require Import VList Core Spec CoreInv Refine SpecProps Conc07 Conc08.
+From FsDb Require LockSkel LockSkelGen LockSkelCheck.
 Import ListNotations.
 Open Scope N_scope.
 
@@ -74,8 +75,25 @@ Example C08_nonvacuous :
               OutVal 10; OutVal 20; OutHandle 3; OutVal 12; OutVal 10].
 Proof. vm_compute. repeat split. Qed.
 
+(* ---- tie of the step granularity to the source: the lock/effect skeleton of internal/usecase/core, regenerated
+   from the Go source on every run (harness/lockskel.go -> LockSkelGen.v), satisfies the discipline of LockSkel.v *)
+Theorem C08_lock_skeleton_ok :
+  LockSkel.skeleton_ok LockSkelGen.skeleton = true /\ LockSkel.covers LockSkelGen.skeleton = true.
+Proof. split; [exact LockSkelCheck.fsdb_skeleton_ok | exact LockSkelCheck.fsdb_skeleton_covers]. Qed.
+
+(* the extra requirement of an operation holds at each of its events (Store: the sequence number is drawn, the record
+   written and both lists appended with the store's and the all-store's write locks held; UpdateTx: commit numbers are
+   drawn inside the committed store's critical section) *)
+Theorem C08_needs_held :
+  forall r p q e h0 hend l,
+    LockSkel.run r h0 (p ++ e :: q) = Some hend -> In l (LockSkel.r_need r e) ->
+    exists h, LockSkel.run r h0 p = Some h /\ LockSkel.holds_w h l = true.
+Proof. exact LockSkel.needs_held. Qed.
+
 Print Assumptions C08_snapshot_is_one_state.
 Print Assumptions C08_repeatable.
 Print Assumptions C08_model_keeps_snapshot.
 Print Assumptions C08_fractured_refuted.
 Print Assumptions C08_gc_horizon_refuted.
+Print Assumptions C08_lock_skeleton_ok.
+Print Assumptions C08_needs_held.
